@@ -19,7 +19,8 @@ P0 == [times |-> 0, sides |-> 0, kind |-> 0, cnt |-> 0, mn |-> NONE, mx |-> NONE
 Plan(fam, p, faces, mode) == [fam |-> fam, p |-> p, faces |-> faces, mode |-> mode, illegal |-> FALSE]
 BadPlan(fam, p) == [fam |-> fam, p |-> p, faces |-> <<>>, mode |-> 0, illegal |-> TRUE]
 
-Clamps(s) == {<<NONE, NONE>>} \cup {<<a, NONE>> : a \in 1..s} \cup {<<NONE, b>> : b \in 1..s}
+\* clamp values also outside the face range (a minimum above the sides, a maximum of 0)
+Clamps(s) == {<<NONE, NONE>>} \cup {<<a, NONE>> : a \in 0..(s + 2)} \cup {<<NONE, b>> : b \in 0..(s + 2)}
              \cup {<<a, b>> \in (1..s) \X (1..s) : a <= b}
 
 KindCnt(t) == {<<0, 0>>} \cup {<<k, c>> \in (1..4) \X (0..(t + 1)) : TRUE}
